@@ -10,6 +10,12 @@ import (
 	"github.com/grindlemire/go-lucene/verif/report"
 )
 
+// fuzzMaxLen bounds the inputs of the native fuzz targets: JSON encoding is quadratic in
+// the nesting depth (a 4000-term chain takes seconds), and the engine kills a worker that
+// spends too long on one input and reports that as a failing input. Large inputs are the
+// business of the big-shape streams of C01.
+const fuzzMaxLen = 1500
+
 func fuzzFail(t *testing.T, st *report.Stats, c any, f *report.Failure) {
 	st.Violate("native-fuzz", c, f)
 	st.Flush()
@@ -53,6 +59,9 @@ func FuzzC02(f *testing.F) {
 		f.Add(`a:"`+h+`"`, h)
 	}
 	f.Fuzz(func(t *testing.T, s, df string) {
+		if len(s)+len(df) > fuzzMaxLen {
+			return
+		}
 		toks, ok := lexToks(s)
 		if !ok || len(toks) == 0 {
 			return
@@ -78,6 +87,9 @@ func FuzzC08(f *testing.F) {
 		}
 	}
 	f.Fuzz(func(t *testing.T, w string, pos uint8, quote bool) {
+		if len(w) > fuzzMaxLen {
+			return
+		}
 		if !utf8.ValidString(w) {
 			return
 		}
